@@ -410,6 +410,22 @@ impl<CharIter: Iterator<Item = char>> Lexer<CharIter> {
         }
     }
 
+    // digits that do not form a representable integer (empty, out of range) are a syntax error
+    fn parse_integer(&self, literal: &str) -> Result<i32> {
+        match literal.parse::<i32>() {
+            Ok(value) => Ok(value),
+            Err(_) => located_error!(SyntaxError::UnrecognizedToken, Some(self.location)),
+        }
+    }
+
+    // a real literal is kept as text; make sure the text really is a decimal number
+    fn real_token(&self, literal: String) -> Result<Option<TokenData>> {
+        match literal.parse::<f64>() {
+            Ok(_) => Ok(Some(TokenData::Primitive(Primitive::Real(literal)))),
+            Err(_) => located_error!(SyntaxError::UnrecognizedToken, Some(self.location)),
+        }
+    }
+
     fn number(&mut self) -> Result<Option<TokenData>> {
         match self.current.take() {
             Some(c) => {
@@ -422,43 +438,39 @@ impl<CharIter: Iterator<Item = char>> Lexer<CharIter> {
                             '0'..='9' => self.digital10(&mut number_literal)?,
                             'e' => {
                                 self.number_suffix(&mut number_literal)?;
-                                break Ok(Some(TokenData::Primitive(Primitive::Real(
-                                    number_literal,
-                                ))));
+                                break self.real_token(number_literal);
                             }
                             '.' => {
                                 self.real(&mut number_literal)?;
-                                break Ok(Some(TokenData::Primitive(Primitive::Real(
-                                    number_literal,
-                                ))));
+                                break self.real_token(number_literal);
                             }
                             '/' => {
                                 let mut denominator = String::new();
                                 self.advance(1);
                                 self.digital10(&mut denominator)?;
                                 break Ok(Some(TokenData::Primitive(Primitive::Rational(
-                                    number_literal.parse::<i32>().unwrap(),
-                                    match denominator.parse::<u32>().unwrap() {
+                                    self.parse_integer(&number_literal)?,
+                                    match self.parse_integer(&denominator)? {
                                         0 => {
                                             return located_error!(
                                                 SyntaxError::RationalDivideByZero,
                                                 Some(self.location)
                                             )
                                         }
-                                        other => other,
+                                        other => other as u32,
                                     },
                                 ))));
                             }
                             _ => {
                                 Self::test_delimiter(Some(self.location), *nc)?;
                                 break Ok(Some(TokenData::Primitive(Primitive::Integer(
-                                    number_literal.parse::<i32>().unwrap(),
+                                    self.parse_integer(&number_literal)?,
                                 ))));
                             }
                         },
                         None => {
                             break Ok(Some(TokenData::Primitive(Primitive::Integer(
-                                number_literal.parse::<i32>().unwrap(),
+                                self.parse_integer(&number_literal)?,
                             ))))
                         }
                     }
